@@ -2,6 +2,7 @@ import Driver.TrVal
 import Driver.Entry
 import Driver.Secure
 import Driver.DelayedValidate
+import Driver.C20
 
 def main (args : List String) : IO UInt32 := do
   let stdin ← IO.getStdin
@@ -10,4 +11,5 @@ def main (args : List String) : IO UInt32 := do
   | ["entry"] => EntryVal.main stdin
   | ["secure"] => SecureVal.main stdin
   | ["delayed"] => DelayedVal.main stdin
+  | ["c20"] => C20Val.main stdin
   | _ => do IO.eprintln "usage: midriver <trval|entry|...>"; return 2
